@@ -1,11 +1,13 @@
 // Command c14cli: black-box graceful-shutdown scenarios against the real `gnark-mbu start`
 // binary (built from the current tree by the caller).
-//   c14cli -bin <gnark-mbu> -keys <file> -mode deletion -depth 2 -batch 2 -seed S -n N
+//
+//	c14cli -bin <gnark-mbu> -keys <file> -mode deletion -depth 2 -batch 2 -seed S -n N
+//
 // Each scenario prints `shutdown\t<scenario>\t=>\tok` or a description of what went wrong:
-//   * every request that was in flight (confirmed through the in-flight gauge) when SIGINT was
+//   - every request that was in flight (confirmed through the in-flight gauge) when SIGINT was
 //     sent receives its complete 200 response with a proof that verifies for its own hash,
-//   * the process exits with status 0,
-//   * both addresses can be bound immediately after the exit.
+//   - the process exits with status 0,
+//   - both addresses can be bound immediately after the exit.
 package main
 
 import (
